@@ -2,7 +2,7 @@
    Only statements, closed by `exact`, with Print Assumptions beneath. *)
 From Coq Require Import NArith List.
 From ZB Require Import Base.Bytes Base.Bits Link.LLHeader Link.LLHeaderGen Link.LinkSpec Link.LinkSpecProofs Link.Frame Link.Rx
-  Link.FrameProofs gen.GenBitfields.
+  Link.FrameProofs gen.GenBitfields gen.GenConsts.
 Import ListNotations.
 Open Scope N_scope.
 
@@ -76,3 +76,11 @@ Print Assumptions C05_ack_frames.
 (* non-vacuity: a concrete command frame meets the hypotheses *)
 Example C05_instance : exists F, to_frame 65536 [1; 2; 3] = Some F /\ (65536 <> 0) /\ 65536 < 2 ^ 32.
 Proof. eexists. split; [reflexivity|]. split; [discriminate|reflexivity]. Qed.
+
+(* the constants of the link format the code is written with are the format's (LinkSpec.v states the format with literal
+   numbers; this pins the names the model takes from the source text) *)
+Theorem C05_format_constants :
+  (frame_signature, sig0, sig1, type_ncp_api_hl, llflag_isACK, llflag_Retransmit, llflag_PacketSeq, llflag_ACKSeq,
+   llflag_FirstFrag, llflag_LastFrag, ll_body_size_max) = (44510, 222, 173, 6, 1, 2, 12, 48, 64, 128, 247).
+Proof. reflexivity. Qed.
+Print Assumptions C05_format_constants.
